@@ -168,9 +168,10 @@ theorem EqEcon.overprod_ok : EqEcon p (overprodPhase p e) := by
   refine { he with alpha := ?_ }
   intro f
   show overprod p e.alpha e.dTot e.prod f = p.aBase
-  unfold overprod alphaChg
-  rw [scarcity_eq_zero_of_eq e.dTot e.prod f (by rw [he.dTot, he.prod]), he.alpha]
-  simp only [mul_zero, zero_mul, if_true, sub_self, add_zero]
+  unfold overprod
+  rw [alphaChg_of_nonpos p e.alpha e.dTot e.prod f
+    (le_of_eq (scarcity_eq_zero_of_eq e.dTot e.prod f (by rw [he.dTot, he.prod]))), he.alpha]
+  simp only [zero_mul, sub_self, add_zero]
   exact max_eq_right hp.base_ge_one
 
 theorem EqEcon.not_anyConstraint : ¬ anyConstraint p e.stock p.x0 := by
